@@ -265,22 +265,33 @@ def _anf_inv(c, A, K):
     return z3.And(UInv(c, S), Fresh(c, S), _edges_untouched(c, S, S0), _nodes_only_added(c, S, S0))
 
 
-from contracts.common import anf_post  # noqa: E402
+from contracts.common import anf_post, nodes_of  # noqa: E402
 
 
 def _anf_groups(c, A, K):
     S, S0 = K.S, A.S0
     return [G("struct", ("C01",), UInv(c, S)), G("fresh", ("C01", "C04"), z3.And(Fresh(c, S), _edges_untouched(c, S, S0))),
-            G("frame", ("C05",), z3.And(_nodes_only_added(c, S, S0), rec_eq(c, A.attr.get()[0], A.attr.get()[1], A.kw0["attr"][0], A.kw0["attr"][1])))]
+            G("frame", ("C05",), z3.And(_nodes_only_added(c, S, S0), rec_eq(c, A.attr.get()[0], A.attr.get()[1], A.kw0["attr"][0], A.kw0["attr"][1]))),
+            G("node-set", ("C05", "C16"), S.nk == c.union(S0.nk, nodes_of(c, K.done)))]
 
 
 s = std(contract(H + "add_nodes_from", [("self", "net:H"), ("nodes_for_adding", "val"), ("attr", "kwattr")]))
 s.loop("for n in nodes_for_adding", _anf_groups, post=anf_post)
 s.ens_all("edges-untouched", ("C04", "C05"), lambda c, A, R: _edges_untouched(c, R.S, A.S0))
 s.ens_all("nodes-only-added", ("C05",), lambda c, A, R: _nodes_only_added(c, R.S, A.S0))
-s.exc("XGIError")
-s.exc("TypeError")
-s.exc("ValueError")
+s.ens("node-set", ("C05", "C16"), lambda c, A, R: z3.Implies(z3.Not(c.one_shot(A.nodes_for_adding.term)),
+                                                           R.S.nk == c.union(A.S0.nk, nodes_of(c, c.content(A.nodes_for_adding.term)))))
+
+
+def _some(c, A, pred):
+    t = A.nodes_for_adding.term
+    return c.exists(["id"], lambda x: z3.And(sel(c.content(t), x), pred(x)))
+
+
+s.exc("XGIError", "only-for-a-None-node", ("C05",), lambda c, A, R: _some(c, A, lambda x: z3.Or(x == c.NONE, z3.Not(c.hashable(x)))))
+s.exc("TypeError", "only-for-bad-elements", ("C05",), lambda c, A, R: z3.Or(
+    z3.Not(c.iterable(A.nodes_for_adding.term)), _some(c, A, lambda x: z3.Not(c.hashable(x)))))
+s.exc("ValueError", "only-for-bad-elements", ("C05",), lambda c, A, R: _some(c, A, lambda x: z3.Not(c.hashable(x))))
 
 
 def _only_removed(c, S, S0):
